@@ -193,3 +193,19 @@ PLAN["C08"] = {
     "quick": {"wall": 170, "tests": [{"run": "TestC08", "shards": 16, "checks": 30, "timeout": 150, "shrink": "30s"}]},
     "thorough": {"wall": 1500, "tests": [{"run": "TestC08", "shards": 16, "checks": 40, "timeout": 1400, "shrink": "120s"}]},
 }
+
+PLAN["C17"] = {
+    "level": "exploration",
+    "rule": ("generated sequences on one in-process replica node (real replica.Server, REST router, rpc server) of transitions {create, open, close, set-mode RW/WO, set-rebuilding, reload, "
+             "snapshot, attach = remote.Factory.Create, detach} interleaved with probes in every reached state: read/write/sync/unmap, RemoveDiffDisk / PrepareRemoveDisk / "
+             "SetRevisionCounter, and every REST action (17 + unknown ones) with a valid body; oracle from the statement: closed/initial => I/O returns an error and the directory "
+             "(names, sizes, content hashes), state, chain, mode, counter are unchanged; a write is acknowledged only when open and RW (counter +1) or WO (counter unchanged), in mode INIT "
+             "it is refused and the counter does not move; removal, prepare-removal and counter updates are refused outside RW without side effects; a backend can be created only "
+             "against a closed replica (a second attach fails); a REST action the node's own GET /v1/replicas/1 does not advertise is answered with an error status and changes nothing; "
+             "non-trivial = >=1 attach attempt and >=1 probe in a state where it must be refused"),
+    "assumptions": ["one node in the harness process; the REST advertisement is read from the node itself right before each request (advertised-vs-enforced consistency)",
+                    "where the engine stores the bytes of a write it refuses in mode INIT is recorded but not judged (the statement is read as 'acknowledges')"],
+    "technique": "stateful property testing (rapid): transition sequences with refusal/no-side-effect oracle per state",
+    "quick": {"wall": 120, "tests": [{"run": "TestC17", "shards": 16, "checks": 80, "timeout": 100}]},
+    "thorough": {"wall": 900, "tests": [{"run": "TestC17", "shards": 16, "checks": 4000, "timeout": 840}]},
+}
